@@ -1,0 +1,13 @@
+//go:build verif
+
+package sync
+
+import (
+	"bytes"
+
+	"github.com/jsightapi/jsight-schema-core/verifhook"
+)
+
+func verifPoolGet() { verifhook.PoolGet() }
+
+func verifPoolPut(b *bytes.Buffer) { verifhook.PoolPut(b) }
